@@ -493,6 +493,8 @@ def run_contract(contract, xcheck=True, goal_timeout_ms=8000):
                   branch_timeout_ms=contract.branch_timeout_ms,
                   branch_mbqi=contract.branch_mbqi)
   ex.model_hook = model_from_z3
+  if getattr(contract, 'native_refuter', False):
+    ex.refuter = _make_refuter(contract)
   policy = make_policy(contract, REGISTRY)
   ensures = contract.clauses('ensures_')
   exc_iff = contract.clauses('exc_iff_')
@@ -630,6 +632,33 @@ def run_contract(contract, xcheck=True, goal_timeout_ms=8000):
   rep.axioms = set(axioms.USED)
   rep.wall_s = time.time() - t0
   return rep
+
+
+def _make_refuter(contract, budget_s=10.0):
+  """Per-obligation bounded native search (see _native_search_for_undecided),
+  asked as soon as the solver answers `unknown` on that obligation -- before
+  the retry portfolio, which is costly on goals that have a counterexample
+  under quantified hypotheses.  Only for contracts whose `replay` decides the
+  named obligation itself (`native_refuter = True`)."""
+  cache = {}
+
+  def refute(name):
+    if name in cache:
+      return cache[name]
+    cache[name] = None
+    t0 = time.time()
+    for m in contract.small_models():
+      if time.time() - t0 > budget_s:
+        break
+      try:
+        r = contract.replay(name, m)
+      except Exception:  # pylint: disable=broad-except
+        continue
+      if r and r.get('outcome') == 'reproduced':
+        cache[name] = (m, r.get('detail', ''))
+        break
+    return cache[name]
+  return refute
 
 
 def _native_search_for_undecided(contract, rep, budget_s=25.0):
